@@ -365,6 +365,10 @@ fn fault_sweep(h: &RepoHandle, spec: &str, step: usize, marked_at: &BTreeMap<Id,
         let ran = prune_run(&hc, spec, step, &mut m, &Fault::Kth(k), order).map_err(|e| retag(e, "faulty-prune"))?;
         let Some(op) = &ran.failed else { continue };
         let what = op_kind(op);
+        // A failed run can leave worker threads behind that still write for a moment (when one repacker fails the other one is
+        // dropped, not joined): everything below works on a copy of the store as it is now, so that such a late write (always an
+        // unreferenced pack) cannot land in the middle of the retry.
+        let hc = copy_of(&hc);
         if std::env::var("VH_DEBUG").is_ok() {
             eprintln!("step {step}: fault at {k}/{} ({what}) -> prune {}", full.n, if ran.ok { "Ok" } else { "Err" });
         }
